@@ -11,8 +11,9 @@ def run(ctx):
     # besides the round trips: the stability laws - the wire bytes, signing body and digest of a VAA that is being held stay what
     # they were while other VAAs are encoded ("no accepted input is silently altered" also between two calls)
     vaacommon.run_vaa(ctx, "c05", ("enc", "dec"), classify,
-                      also=lambda ln: ln.startswith("eq ") and ln.split(" ", 3)[2] in (
+                      also=lambda ln: (ln.startswith("eq ") and ln.split(" ", 3)[2] in (
                           "wire-bytes-not-stable", "signing-body-not-stable", "digest-not-stable", "digest-not-double-keccak-of-held-body"))
+                      or (ln.startswith("ne ") and ln.split(" ", 3)[2].startswith(("encoding-ignores-field-change", "digest-ignores-field-change"))))
     ctx.cov["rule"] = ("enc: random VAAs (payload 1..4096 bytes incl. 999/1000/1001, thorough up to 200000; 0..255 signatures; boundary "
                        "field values) through the real Marshal+Unmarshal; dec: every truncation point of small encodings, header/"
                        "length-byte/bit-flip/append mutations and random bytes through the real Unmarshal (panics recovered). "
